@@ -8,7 +8,7 @@ Inductive cls := Element | Isotope | Ion.
 
 (* statements of delayed_load's getfn / setfn *)
 Inductive gstep := GClear | GLoad | GGetattr.
-Inductive sstep := SClear | SSetattr.
+Inductive sstep := SClear | SLoad | SSetattr.   (* SLoad: `loader()` inside setfn (not in today's source) *)
 
 (* what a loader puts at class level: property(...), a constant (None, 'angstrom'), or an object it
    allocated in this call (Neutron()) *)
@@ -35,6 +35,8 @@ Inductive effect :=
 | EProbeDel (t : target) (n : string)              (* if hasattr(atom, n): del atom.n *)
 | EGetDefaultSet (t : target) (n : string) (k : vkind) (* x = getattr(atom, n, []); ...; atom.n = x *)
 | ERead (t : target) (n : string)                  (* a read of the lazily loaded attribute n *)
+| ETouchPublic (n : string)                        (* if table is not default_table(): getattr(default_table()[0], n, None)
+                                                      (not in today's source) *)
 | ECall (f : string).                              (* helper(table) *)
 
 Record registration := mkReg {
